@@ -965,6 +965,9 @@ fn rand_key(r: &mut Rng, pool: &[String]) -> String {
 }
 
 fn rand_val(r: &mut Rng) -> String {
+    if r.chance(1, 10) {
+        return gen::boundary_string(r, false);
+    }
     match r.below(6) {
         0 => String::new(),
         1 => gen::mixed_string(r, 1, 40, 30),
